@@ -282,14 +282,16 @@ def judge_subdaily(c, rec):
     k_last = int(days.searchsorted(lv, side="right") - 1)  # the day of the last reading: its interval is open-ended
     k_first = int(days.searchsorted(fv, side="right") - 1)
     # from_series trims missing readings at both ends (documented); the frame constructor keeps the caller's span
-    want_days = days[k_first:k_last + 1] if c["entry"] == "from_series" else days[:c["nd"]]
+    # (the caller's span begins with the local day of its first row: on a 23-hour day a start "23 hours in" is the next midnight)
+    k_row0 = int(days.searchsorted(m.index[0], side="right") - 1)
+    want_days = days[k_first:k_last + 1] if c["entry"] == "from_series" else days[k_row0:c["nd"]]
     if not (len(data.df.index) == len(want_days) and (data.df.index == want_days).all()):
         extra = data.df.index.difference(want_days)
         lost = want_days.difference(data.df.index)
         rec.violation(key + "/day-rows", c, "frame has %d rows for %d local days; rows that are no day start: %s; days without a row: %s" % (
             len(data.df.index), len(want_days), [str(x) for x in extra[:3]], [str(x) for x in lost[:3]]))
     kinds = set()
-    for k in range(k_first if c["entry"] == "from_series" else 0, min(c["nd"] - 1, k_last)):  # the final day's last interval is open-ended
+    for k in range(k_first if c["entry"] == "from_series" else k_row0, min(c["nd"] - 1, k_last)):  # the final day's last interval is open-ended
         a, b = days[k], days[k + 1]
         seg = m[(m.index >= a) & (m.index < b)]
         slots = int((b - a) / step)
